@@ -147,7 +147,8 @@ HistNext(ln, e) ==
         !.eof = @ \/ (ln.op = "r" /\ ln.ret = 0 /\ ln.cap > 0),
         !.refused = (ln.op = "s" /\ ln.ret = -1 /\ ln.err \in {EAGAIN, EMSGSIZE, EINVAL}),
         \* wref: the last stream send was refused (EAGAIN); taint: a refused send was followed by different data
-        !.wref = IF ln.op = "s" THEN (ln.ret = -1 /\ ln.err = EAGAIN /\ ln.len > 0) ELSE @,
+        \* (a zero-length send does not reach OpenSSL: a record captured before it is still captured after it)
+        !.wref = IF ln.op = "s" /\ ln.len > 0 THEN (ln.ret = -1 /\ ln.err = EAGAIN) ELSE @,
         !.taint = @ \/ (ln.op = "s" /\ h.wref /\ ln.rty = 0),
         !.pipe = @ \/ (ln.op \in {"s", "f"} /\ ln.ret = -1 /\ ln.err = EPIPE),
         !.err = IF @ = 0 /\ ln.op \in {"s", "r", "f"} /\ ln.ret = -1 /\ ConnErr(ln.err)
